@@ -51,6 +51,10 @@ def rand_hpd(rng, lead, D, scale=None, max_cond=1e6):
         ev[..., 1:-1] = np.exp(-rng.random(lead + (D - 2,)) * np.log(cond)[..., None])
     if scale is None:
         scale = 10.0 ** rng.integers(-3, 4)
+        if rng.random() < 0.25:
+            # the absolute level of a PSD is free in the property (only the condition number is bounded):
+            # levels near machine epsilon expose absolute regularisation constants
+            scale = float(rng.choice([1e-18, 1e-12, 1e9, 1e15]))
     A = (q * ev[..., None, :]) @ herm(q) * scale
     return 0.5 * (A + herm(A))
 
